@@ -33,6 +33,9 @@ func leaf() *Node { return &Node{Type: "text", Sub: "plain", Body: []byte("x")} 
 // candidates returns trees that are one simplification step away from n (the root keeps its envelope).
 func candidates(n *Node) []*Node {
 	var out []*Node
+	if n.Bare {
+		return []*Node{leaf()}
+	}
 	with := func(f func(c *Node)) {
 		c := n.Clone()
 		f(c)
@@ -43,6 +46,9 @@ func candidates(n *Node) []*Node {
 		with(func(c *Node) {
 			c.ID, c.Desc, c.Enc, c.MD5, c.Disp, c.Lang, c.Loc, c.Extra, c.DispParams, c.Prelude, c.RawLines = "", "", "", "", "", "", "", nil, nil, "", nil
 		})
+	}
+	if n.NoClose {
+		with(func(c *Node) { c.NoClose = false })
 	}
 	if len(n.Preamble) > 0 || len(n.Epilogue) > 0 {
 		with(func(c *Node) { c.Preamble, c.Epilogue = nil, nil })
@@ -149,7 +155,9 @@ func Shape(n *Node) string {
 	var sb strings.Builder
 	var rec func(x *Node)
 	rec = func(x *Node) {
-		if !x.HasCT {
+		if x.Bare {
+			sb.WriteString("(bare)")
+		} else if !x.HasCT {
 			sb.WriteString("(default)")
 		} else {
 			sb.WriteString(x.Type + "/" + x.Sub)
@@ -168,6 +176,9 @@ func Shape(n *Node) string {
 				rec(c)
 			}
 			sb.WriteString("]")
+			if x.NoClose {
+				sb.WriteString("!noclose")
+			}
 		}
 	}
 	rec(n)
